@@ -454,9 +454,32 @@ def run_locale(desc):
 
 # --- canonical fixed point ---------------------------------------------------
 
+# single lines around what the reader and the writer may see differently
+EDGE_LINES = [
+    'DIST a\\x2Fb 1 MD5 00', 'DIST a\\u002fb 1', 'DIST \\x2Fabs 1',
+    'DIST a\\U0000002Fb 0 SHA1 11', 'DATA \\x2Fabs 1', 'DATA a\\x2Fb 1',
+    'IGNORE a\\x2F', 'IGNORE a/', 'IGNORE a//', 'IGNORE \\x2F',
+    'DATA a\\x5Cx41 0', 'DATA \\x5C 0', 'MANIFEST a\\x2FManifest 0',
+    'AUX \\x2Fa 0', 'AUX files\\x2Fa 0', 'DATA a\\x20 0',
+    'DATA \\x20 0', 'DATA a\\x0A 0', 'TIMESTAMP 2020-01-01T00:00:00Z x',
+    'DATA \\U0010FFFF 0', 'DATA \\ud83d\\ude00 0', 'DIST .. 0',
+    'DIST . 0', 'DATA . 0', 'DATA a/../b 0', 'DATA ./a 0', 'DATA a/. 0',
+]
+
+
+@st.composite
+def edge_text(draw):
+    lines = draw(st.lists(st.sampled_from(EDGE_LINES), min_size=1,
+                          max_size=2))
+    if draw(st.booleans()):
+        lines.insert(draw(st.integers(0, len(lines))), 'DATA plain 1 MD5 aa')
+    return ''.join(ln + '\n' for ln in lines)
+
+
 def strat_fixedpoint(tier):
     return st.one_of(c09.grammar_text(), c09.grammar_text(),
-                     c09.mutated_text()).map(lambda t: {'text': t})
+                     c09.mutated_text(), edge_text()).map(
+        lambda t: {'text': t})
 
 
 def run_fixedpoint(desc):
